@@ -38,10 +38,17 @@ where
     self.fn_next.call_if_available(x);
   }
   pub fn error(&self, x: RxError) {
-    self.fn_error.call_and_clear_if_available(x);
+    // a terminal is delivered at most once and ends `next`: whoever takes `fn_next` owns the terminal
+    if self.fn_next.clear_if_available() {
+      self.fn_complete.clear();
+      self.fn_error.call_and_clear_if_available(x);
+    }
   }
   pub fn complete(&self) {
-    self.fn_complete.call_and_clear_if_available(());
+    if self.fn_next.clear_if_available() {
+      self.fn_error.clear();
+      self.fn_complete.call_and_clear_if_available(());
+    }
   }
   pub fn unsubscribe(&self) {
     self.fn_next.clear();
